@@ -69,11 +69,11 @@ def variant_items():
         prios = [None] if kind == "-" else [None, "P1"]
         for prio in prios:
             for ident in (None, "2024-02-03"):
-                for lead in ("P1", "P15", "o", "x", "2024-19-39", "2024-02-30"):
+                for lead in ("P1", "P15", "o", "x", "2024-19-39", "2024-02-30", "1999-12-31", "3024-01-01"):
                     pre = kind + (f" {prio}" if prio else "")
                     if lead == "P1" and kind != "-" and prio is None:
                         continue  # that IS the priority of a todo, covered above
-                    if lead.startswith("2024-") and ident:
+                    if lead[4:5] == "-" and ident:
                         continue  # one date-shaped first word is enough
                     out.append([pre + " " + (ident + " " if ident else "") + lead + " lookalike first word"])
     # two blanks between the kind and a Pn word: by the grammar that word is body, not priority
